@@ -243,6 +243,11 @@ func sameCodes(sk *skeleton, got []wiring.Dep, want []expArg) bool {
 		if canonExpr(sk.fset, got[i].Expr0()) != canonSrc(want[i].Code) {
 			return false
 		}
+		// the generated expression is of the intended dependency kind (the code template calls the
+		// helper that is bound to the runtime constructor of that kind)
+		if want[i].Kind != "" && got[i].Kind != want[i].Kind {
+			return false
+		}
 	}
 	return true
 }
